@@ -121,7 +121,7 @@ def shards(tier):
         for phase in PHASES:
             for flag in FLAGS:
                 lists = _user_lists(phase, flag, tier)
-                nparts = 2 if len(lists) > 20 else 1
+                nparts = (len(lists) + 9) // 10
                 for part in range(nparts):
                     out.append(dict(cls=cls, phase=phase, flag=flag, part=part, nparts=nparts, tier=tier))
     return out
